@@ -509,7 +509,21 @@ def d3(ctx, rep):
     edge = prog.cls(TREE + 'Edge').methods['get_likelihood']
     rets = [n for n in walk_no_nested(edge.node) if isinstance(n, ast.Return) and isinstance(n.value, ast.Tuple)]
     if rets and len(rets[0].value.elts) == 3:
-        v, l, r = (single_def(edge.node, e.id) if isinstance(e, ast.Name) else e for e in rets[0].value.elts)
+        def deep(e_, depth=0):
+            """the value with single-definition locals expanded inside it (np.sum(_arg) -> np.sum(copula.pdf(X)))"""
+            import copy
+            e_ = single_def(edge.node, e_.id) if isinstance(e_, ast.Name) and isinstance(single_def(edge.node, e_.id), ast.AST) else e_
+            if not isinstance(e_, ast.AST) or depth > 3:
+                return e_
+
+            class Sub(ast.NodeTransformer):
+                def visit_Name(self2, n):
+                    d_ = single_def(edge.node, n.id) if isinstance(n.ctx, ast.Load) and n.id not in edge.params else None
+                    if isinstance(d_, ast.Call) and call_name(d_) in ('probability_density', 'pdf', 'partial_derivative'):
+                        return copy.deepcopy(d_)
+                    return n
+            return Sub().visit(copy.deepcopy(e_))
+        v, l, r = (deep(e) for e in rets[0].value.elts)
         okv = isinstance(v, ast.AST) and any(isinstance(c, ast.Call) and call_name(c) in ('probability_density', 'pdf') for c in ast.walk(v))
         x0 = [c for c in ast.walk(l) if isinstance(c, ast.Call) and call_name(c) == 'partial_derivative'] if isinstance(l, ast.AST) else []
         x1 = [c for c in ast.walk(r) if isinstance(c, ast.Call) and call_name(c) == 'partial_derivative'] if isinstance(r, ast.AST) else []
